@@ -468,3 +468,67 @@ def run_routes_case(f1, pl1, f2, pl2, swap, split):
         if sorted({key(o) for o in comp.all_versions(id_)}) != want_c:
             return False
     return True
+
+
+# ---- filters on properties that hold their default value (not written to disk by the sink, absent from hand-written files)
+DFILTERS = [Filter("revoked", "=", False), Filter("revoked", "!=", True), Filter("revoked", "=", True), Filter("defanged", "=", False), Filter("defanged", "!=", False),
+            Filter("revoked", "in", [False]), Filter("is_family", "=", False)]
+NDF = len(DFILTERS)
+
+
+def defaulted_properties(fi: int, gi: int, hand: bool, route: int) -> bool:
+    """
+    pre: 0 <= fi < NDF and 0 <= gi <= NDF and 0 <= route <= 2
+    post: _
+    """
+    fi, gi, hand, route = pick(fi, NDF), pick(gi, NDF + 1), pickb(hand), pick(route, 3)
+    with Native():
+        ok = run_default_case(fi, gi, hand, route)
+    V.reached()
+    return ok
+
+
+def run_default_case(fi, gi, hand, route):
+    import json
+    U = "-f010-4473-83ec-1edf84858f4c"
+    base = {"spec_version": "2.1", "created": "2020-01-01T00:00:00.000Z", "modified": "2020-01-01T00:00:00.000Z"}
+    docs = [dict(base, type="malware", id="malware--aaaaaaaa" + U, name="a", is_family=False),
+            dict(base, type="malware", id="malware--bbbbbbbb" + U, name="b", is_family=True, revoked=True),
+            dict(base, type="malware", id="malware--cccccccc" + U, name="c", is_family=False, revoked=False),
+            {"type": "file", "spec_version": "2.1", "id": "file--dddddddd" + U, "name": "f"},
+            {"type": "file", "spec_version": "2.1", "id": "file--eeeeeeee" + U, "name": "g", "defanged": True}]
+    objs = [stix2.parse(d) for d in docs]
+    flt = [DFILTERS[fi]] + ([DFILTERS[gi]] if gi < NDF else [])
+    want = sorted(o["id"] for o in apply_common_filters(objs, flt))
+    ffs = fakefs.FakeFS()
+    saved = fakefs.install(fs, ffs)
+    try:
+        if hand:
+            # files written by hand / by another tool: defaulted properties simply are not there
+            for d in docs:
+                t = d["type"]
+                if "modified" in d:
+                    ffs.makedirs("/fs/%s/%s" % (t, d["id"]))
+                    ffs.files["/fs/%s/%s/20200101000000000.json" % (t, d["id"])] = json.dumps(d)
+                else:
+                    ffs.makedirs("/fs/%s" % t)
+                    ffs.files["/fs/%s/%s.json" % (t, d["id"])] = json.dumps(d)
+            src = fs.FileSystemSource("/fs", allow_custom=False)
+        else:
+            store = fs.FileSystemStore("/fs", allow_custom=False)
+            store.add(objs)
+            src = store.source
+        if route == 0:
+            got = src.query(flt)
+        elif route == 1:
+            src.filters.add(flt)
+            got = src.query([])
+        else:
+            comp = CompositeDataSource()
+            comp.add_data_sources([src])
+            comp.filters.add(flt)
+            got = comp.query([])
+        mem = MemorySource(objs).query(flt)
+    finally:
+        fs.os, fs.io = saved
+    return sorted(o["id"] for o in got) == want and sorted(o["id"] for o in mem) == want
